@@ -187,6 +187,8 @@ def _validate_chunk(module, chunk, constants, scratch, tag, timeout, header, hea
                 verdicts.setdefault(v["id"], []).extend(fl)
             for sk in (v.get("skip") or []):
                 st["skipped"][sk] = st["skipped"].get(sk, 0) + 1
+    if "Parsing or semantic analysis failed" in r.out or "Semantic errors" in r.out:
+        raise TLCError("the trace specification does not parse\n" + r.out[-2500:])
     done = max(r.distinct - 1, 0)
     if r.error is None and r.rc == 0 and done == len(chunk):
         st["validated"] = len(chunk)
